@@ -5,6 +5,7 @@ import (
 	"regexp"
 	"strings"
 	"unicode"
+	"unicode/utf8"
 
 	"github.com/Vedant9500/WTF/internal/constants"
 	"github.com/Vedant9500/WTF/internal/errors"
@@ -22,13 +23,17 @@ func ValidateQuery(query string) (string, error) {
 		return "", errors.NewQueryTooLongError(len(query), constants.MaxQueryLength)
 	}
 
-	// Basic sanitization - remove control characters but keep printable chars
-	cleaned := strings.Map(func(r rune) rune {
-		if unicode.IsControl(r) && r != '\n' && r != '\t' {
-			return -1 // Remove control characters except newlines and tabs
+	// Basic sanitization - remove control characters but keep printable chars, then
+	// normalize whitespace. Repeat until stable: removing a character can make the
+	// invalid UTF-8 bytes around it combine into a new control or space character.
+	cleaned := query
+	for {
+		next := strings.Join(strings.Fields(removeControlChars(cleaned)), " ")
+		if next == cleaned {
+			break
 		}
-		return r
-	}, query)
+		cleaned = next
+	}
 
 	// Check for potentially dangerous characters after sanitization
 	dangerousChars := regexp.MustCompile(`[<>|&;$]`)
@@ -44,17 +49,27 @@ func ValidateQuery(query string) (string, error) {
 		return "", errors.NewQueryInvalidCharsError(strings.Join(invalidChars, ", "))
 	}
 
-	// Trim excessive whitespace
-	cleaned = strings.TrimSpace(cleaned)
-
-	// Replace multiple spaces with single spaces
-	cleaned = strings.Join(strings.Fields(cleaned), " ")
-
 	if cleaned == "" {
 		return "", errors.NewQueryEmptyError()
 	}
 
 	return cleaned, nil
+}
+
+// removeControlChars drops control characters except newlines and tabs. Invalid UTF-8
+// bytes are copied through unchanged (strings.Map would re-encode each of them as a
+// three-byte U+FFFD, so a validated query could grow past the length limit).
+func removeControlChars(s string) string {
+	var sb strings.Builder
+	sb.Grow(len(s))
+	for i := 0; i < len(s); {
+		r, size := utf8.DecodeRuneInString(s[i:])
+		if !(unicode.IsControl(r) && r != '\n' && r != '\t') {
+			sb.WriteString(s[i : i+size])
+		}
+		i += size
+	}
+	return sb.String()
 }
 
 // ValidateLimit validates search result limits
